@@ -41,7 +41,7 @@ rsync -a --exclude .git --exclude .work --exclude seeded /verif/ "$EV"/
 cleanup() { git -C /repo worktree remove --force "$WT" >/dev/null 2>&1; rm -rf "$EV"; }
 RES=""
 for P in $PROP $EXTRA; do
-  VERIF_REPO="$WT" timeout 1500 "$EV"/vrun $P $TIER > /tmp/eval-$ID-$P.log 2>&1; rc=$?
+  VERIF_DEADLINE_S=1400 VERIF_REPO="$WT" timeout 1500 "$EV"/vrun $P $TIER > /tmp/eval-$ID-$P.log 2>&1; rc=$?
   cp "$EV"/evidence/$P.json /tmp/eval-$ID-$P.evidence.json 2>/dev/null
   sig=$(grep -m3 'signature:' /tmp/eval-$ID-$P.log | sed 's/^ *signature: //' | tr '\n' ';')
   echo "check $P $TIER exit=$rc  $sig"
